@@ -76,3 +76,26 @@ reg("C06", "exploration",
     thorough=[("F4", 50000)],
     assumptions=["wall-clock steps are injected only while the daemon is stopped (a step during a sleep makes 'on time' ambiguous)",
                  "evaluations after failed attempts are C07's subject, not C06's"])
+
+reg("C01", "exploration",
+    "F1: issuance swarm (1..3 certificates, identifier sets of 1..8 entries mixing plain/wildcard/IDN/mixed-case DNS names and IPv4/IPv6 in several "
+    "textual forms, 7 key types with RSA kept rare, 3 digests, random subsets of the 15 subject attributes, kp_reuse x key-file states) x CA-behaviour swarm. "
+    "Oracle in the model CA and at the storage seam: newOrder identifiers == the harness's own IDNA / RFC 5952 expectation; CSR parsed from DER: self-signature, "
+    "SAN multisets, subject, digest, key type; retransmitted finalize identical; after success the stored key is the CSR's key. Non-trivial = at least one order reached the CA.",
+    quick=[("F1", 1500)], thorough=[("F1", 100000)],
+    assumptions=["IDN inputs restricted to code points for which lower-case-then-Punycode is unambiguously the A-label (no UTS-46 mappings demanded)",
+                 "the input-space quantifier is covered by seeded generation only"])
+
+reg("C04", "exploration",
+    "fault-free families F1 (all key types and flows, badNonce and nonce-expiry as CA behaviours, nonces on GET or not, EAB), F5 (shared endpoints), F6 (account updates, "
+    "key roll-overs, re-registration). Every POST the transport seam delivers is verified by the model CA's independent JWS verifier: flattened shape, protected members, alg<->key, "
+    "url == request URL, nonce in issued minus consumed, jwk xor kid discipline, signature under the key on record (fixed-width R||S). Non-trivial = at least one POST verified; "
+    "ECDSA signatures with a leading-zero component are counted (reach by volume).",
+    quick=[("F1", 1500)], thorough=[("F1", 100000)],
+    assumptions=["judged on fault-free families only: after an injected lost reply or failed nonce fetch the daemon legitimately re-uses its last nonce"])
+
+reg("C13", "exploration",
+    "F1 with generated mode/owner options (6 owner spellings by name and number, 8 modes, umask in {022,077,027,000}) over create and rewrite; every file the simulated daemon "
+    "writes is stat(2)ed on the real scratch tree after the write: mode at creation == configured & ~umask and unchanged by rewrites, uid/gid == configured (own passwd/group reader). "
+    "Weakest fit for the technique (no schedule or fault in the statement); claimed because the storage seam performs the real open(2)/chown(2).",
+    quick=[("F1", 1500)], thorough=[("F1", 100000)])
